@@ -1969,6 +1969,8 @@ class Task:
                 res.append((s2, vals[0], None))
             elif name == "bool":
                 res.append((s2, vbool(truth(vals[0])), None))
+            elif name == "abs" and is_num(vals[0]):
+                res.append((s2, V(vals[0].sort, [z3.If(vals[0].z < 0, -vals[0].z, vals[0].z)]), None))
             elif name == "callable" and isinstance(vals[0], V) and isinstance(vals[0].sort, (SeqSort, MapSort)):
                 res.append((s2, vbool(False), None))
             elif name == "callable" and isinstance(vals[0], V) and isinstance(vals[0].sort, RefSort):
